@@ -755,6 +755,29 @@ def fault_cases(ctx, rng, n, batch):
                                   expected='inputData', observed=res, finding=classify_error(res))
 
 
+def no_units_block_cases(ctx):
+    """a file without any `units:` block: every bare dimensional value (temperatures included) has no unit available and the
+    library is rejected; the same file with the values given units loads"""
+    variants = {
+        'bare T_ref, non-dimensional data': {'T_ref': Fraction(300), 'ND_H_ref': Fraction(3, 2), 'ND_S_ref': Fraction(2)},
+        'bare table temperature': {'T_ref': Q(Fraction(300), 'K'), 'ND_H_ref': Fraction(3, 2), 'ND_Cp_data': [[Fraction(300), Fraction(2)], [Q(Fraction(400), 'K'), Fraction(3)]]},
+        'bare range': {'T_ref': Q(Fraction(300), 'K'), 'ND_S_ref': Fraction(2), 'range': [Fraction(250), Fraction(900)]},
+        'bare H_ref': {'T_ref': Q(Fraction(300), 'K'), 'H_ref': Fraction(-17)},
+        'bare S_ref': {'T_ref': Q(Fraction(300), 'K'), 'S_ref': Fraction(40)},
+        'bare Cp': {'T_ref': Q(Fraction(300), 'K'), 'ND_H_ref': Fraction(1), 'Cp_data': [[Q(Fraction(300), 'K'), Fraction(8)], [Q(Fraction(400), 'K'), Fraction(9)]]},
+    }
+    for tag, entry in variants.items():
+        d = L.new_dir(ctx, 'c12n-')
+        path = os.path.join(d, 'library.yaml')
+        text = L.write_file(path, {'units': None, 'groups': [('C(H)4', {'thermochem': entry})]})
+        st, res = L.load_library(path)
+        ctx.count('no_units_block_cases')
+        ctx.case(text, None)
+        if st != 'err' or res != 'inputData':
+            ctx.violation('a dimensional value with no unit available (no units block at all) is not rejected with InputDataError',
+                          {'file': text, 'fault': 'no_units_block', 'variant': tag}, expected='inputData', observed=res if st == 'err' else 'loaded')
+
+
 # ------------------------------------------------------------------------------------------------------------------- run
 def compare_batch(ctx, batch):
     replies = ctx.model([b[0] for b in batch])
@@ -858,6 +881,7 @@ def run(ctx):
     compare_batch13(ctx, batch13)
     zero_cases(ctx, rng, batch)
     boundary_cases(ctx)
+    no_units_block_cases(ctx)
     shape_cases(ctx, rng, batch)
     compare_batch(ctx, batch)
     ctx.assumption('A-yaml', True, '%d generated documents parsed to the generated trees' % ctx.stats['files_written'])
@@ -1045,6 +1069,14 @@ def replay(ctx, rec):
     before = len(ctx.violations)
     if 'read_before' in inp:
         unit_semantics(ctx, [inp['read_before'] + [inp['unit']]])
+        return len(ctx.violations) == before
+    if inp.get('fault') == 'no_units_block':
+        d = L.new_dir(ctx, 'c12nr-')
+        path = os.path.join(d, 'library.yaml')
+        open(path, 'w').write(inp['file'])
+        st, res = L.load_library(path)
+        if st != 'err' or res != 'inputData':
+            ctx.violation('a dimensional value with no unit available (no units block at all) is not rejected with InputDataError', inp, 'inputData', res if st == 'err' else 'loaded')
         return len(ctx.violations) == before
     if 'files' in inp or ('b' in inp and 'files' in inp['b']):
         replay_files(ctx, inp if 'files' in inp else inp['b'])
